@@ -23,6 +23,7 @@ import (
 	"math"
 	"math/rand"
 	"sort"
+	"time"
 
 	"src.elv.sh/pkg/persistent/vector"
 	"verifharness/internal/mon"
@@ -420,6 +421,53 @@ func (x *x) build(n int) *ver {
 	return &ver{v: v, m: m, ucount: n, born: x.step, how: fmt.Sprintf("built by %d Conj", n)}
 }
 
+// fork grows two branches from the same receiver by k elements each,
+// alternating between them, and then re-reads both branches and the
+// receiver: the branches push their own tails into what starts as the same
+// tree.
+func (x *x) fork(b *ver, k int) bool {
+	a1, a2 := b, b
+	for i := 0; i < k; i++ {
+		if a1 = x.conj(a1); a1 == nil {
+			return false
+		}
+		if a2 = x.conj(a2); a2 == nil {
+			return false
+		}
+	}
+	x.inc("fork_tests")
+	return x.verify(a1, "fork-first-branch") && x.verify(a2, "fork-second-branch") && x.verify(b, "fork-receiver")
+}
+
+// burst applies Conj (grow) or Pop k times in a row and returns the last version.
+func (x *x) burst(b *ver, k int, grow bool) *ver {
+	cur := b
+	for i := 0; i < k; i++ {
+		var nv *ver
+		if grow {
+			nv = x.conj(cur)
+		} else {
+			if len(cur.m) == 0 {
+				break
+			}
+			nv = x.pop(cur)
+		}
+		if nv == nil {
+			return nil
+		}
+		cur = nv
+	}
+	if grow {
+		x.inc("conj_bursts")
+	} else {
+		x.inc("pop_bursts")
+	}
+	if !x.verify(b, "receiver-changed-by-burst") {
+		return nil
+	}
+	return cur
+}
+
 func dedupe(a []int) []int {
 	sort.Ints(a)
 	out := a[:0]
@@ -598,6 +646,12 @@ func runSweep(c *mon.Case) {
 				}
 			}
 		}
+		// two branches growing from this length
+		if interesting(n) || n%4 == 0 {
+			if !x.fork(cur, 70) {
+				return
+			}
+		}
 		// pop chain down to 0 with Conj back up at the shape-changing lengths
 		if interesting(n) || n%97 == 0 {
 			if !x.popChain(cur) {
@@ -751,6 +805,12 @@ func runHistory(c *mon.Case) {
 		var nv *ver
 		var what string
 		switch {
+		case op < 30 && r.Intn(8) == 0:
+			k := 33 + r.Intn(38)
+			nv, what = x.burst(b, k, true), fmt.Sprintf("conj x%d", k)
+		case op >= 30 && op < 50 && r.Intn(8) == 0:
+			k := 33 + r.Intn(38)
+			nv, what = x.burst(b, k, false), fmt.Sprintf("pop x%d", k)
 		case op < 30:
 			nv, what = x.conj(b), "conj"
 			if mode == 4 && nv != nil { // sibling: a second Conj from the same receiver
@@ -859,6 +919,9 @@ func runTall(c *mon.Case) {
 	if !x.verify(root, "built") {
 		return
 	}
+	if !x.fork(root, 40) {
+		return
+	}
 	live := []*ver{root}
 	cur := root
 	up := c.I%4 != 3
@@ -937,11 +1000,11 @@ func Spec() *mon.Spec {
 			"values stored are ints and nil (Elvish $nil); equality of results is Go ==",
 		},
 		Phases: []mon.Phase{
-			{Name: "sweep", Quick: 111, Thorough: 3390, Run: runSweep, Batch: 1},
-			{Name: "history", Quick: 600, Thorough: 8000, Run: runHistory},
-			{Name: "tall", Quick: 16, Thorough: 300, Run: runTall, Batch: 1},
-			{Name: "elvish", Quick: 300, Thorough: 6000, Run: runElvish},
-			{Name: "extreme", Quick: 64, Thorough: 640, Run: runExtreme},
+			{Name: "sweep", Quick: 111, Thorough: 3390, Run: runSweep, Batch: 1, Timeout: 10 * time.Minute},
+			{Name: "history", Quick: 400, Thorough: 8000, Run: runHistory, Timeout: 10 * time.Minute},
+			{Name: "tall", Quick: 16, Thorough: 300, Run: runTall, Batch: 1, Timeout: 10 * time.Minute},
+			{Name: "elvish", Quick: 300, Thorough: 6000, Run: runElvish, Timeout: 10 * time.Minute},
+			{Name: "extreme", Quick: 64, Thorough: 640, Run: runExtreme, Timeout: 10 * time.Minute},
 		},
 		Floors: map[string]int{
 			"distinct_nontrivial": 250,
@@ -957,6 +1020,7 @@ func Spec() *mon.Spec {
 			"old_versions_rechecked":                     1000000, "json_checked": 5000, "histories_touching_2_heights": 60,
 			"elvish_slice": 2000, "elvish_slice_of_slice": 800, "elvish_conj": 1500, "elvish_conj_across_shape_change": 100, "elvish_assoc": 1200,
 			"elvish_index": 900, "elvish_iterate": 1200, "elvish_take_drop": 600, "elvish_rejected": 600, "extreme_probes": 20,
+			"fork_tests": 100, "conj_bursts": 2000, "pop_bursts": 1000,
 		},
 	}
 }
